@@ -255,6 +255,12 @@ func (s *Synchronizer) isReverting(
 		return 0, false
 	}
 
+	if remoteHeight == 0 {
+		// Even block 0 differs: nothing below it can be valid either (and
+		// remoteHeight - 1 would wrap around).
+		return 0, true
+	}
+
 	return remoteHeight - 1, true
 }
 
